@@ -30,7 +30,7 @@ typedef struct {
 typedef struct {
     uint16_t           generation;
     uint16_t           stationNumber;
-    ethernet_header_t  stationList[1];
+    ethernet_address_t stationList[1];
 } lltd_discover_upper_header_t;
 
 typedef struct {
